@@ -248,6 +248,41 @@ func runC11(ctx *core.Ctx) {
 		cs.Flush(lc)
 	})
 	// links inside whole documents under random policies with link options
+	// option histories: the link options switched on and off in every order, with the helpers that set
+	// some of them (AllowStandardURLs, AllowImages) in between; each option reflects its last setting
+	ctx.Run("option-histories", ctx.N(400, 4000), func(cs *core.Case) {
+		r := cs.R
+		ops := []spec.Op{{K: spec.KNew}, {K: spec.KAllowAttrs, Attrs: []string{"href", "rel", "target"}, Scope: "els", Names: []string{"a", "area", "link"}}, {K: spec.KSchemes, Names: []string{"http", "https", "mailto"}}, {K: spec.KSwitch, Names: []string{spec.SwRelative}, B: true}}
+		for k := 3 + r.Intn(6); k > 0; k-- {
+			switch r.Intn(8) {
+			case 0:
+				ops = append(ops, spec.Op{K: gen.Pick(r, []string{spec.KStdURLs, spec.KImages})})
+			default:
+				ops = append(ops, spec.Op{K: spec.KSwitch, Names: []string{swNames[r.Intn(len(swNames))]}, B: r.Intn(3) > 0})
+			}
+		}
+		env := NewEnv(ops)
+		lc := core.LocalCounts{}
+		for i := 0; i < 40; i++ {
+			el := gen.Pick(r, []string{"a", "a", "area", "link"})
+			nd := &gen.Node{Name: el, NoEnd: true, Attrs: [][2]string{{"href", gen.Pick(r, []string{"http://example.org/", "https://example.org/a?b=c", "/local", "#frag", "mailto:a@example.org", "//cdn.example.net/x", "path/only"})}}}
+			if r.Intn(3) == 0 {
+				nd.Attrs = append(nd.Attrs, [2]string{"rel", c11Rel[r.Intn(len(c11Rel))]})
+			}
+			if r.Intn(3) == 0 {
+				nd.Attrs = append(nd.Attrs, [2]string{"target", c11Target[r.Intn(len(c11Target))]})
+			}
+			in := gen.Serialize(r, []*gen.Node{nd}, 0)
+			out := SanitizeVia(env.Pol, in, i)
+			cs.Eval()
+			lc["option_history_links"]++
+			if c11Judge(cs, env, in, out, lc) {
+				cs.Nontrivial(core.Hash("hist", strings.Join(spec.Describe(env.Ops), ";"), in))
+			}
+		}
+		cs.Flush(lc)
+	})
+	ctx.Floor("option_history_links", 10000)
 	docWorkload(ctx, spec.GenOpts{}, ctx.N(300, 3000), ctx.N(100, 300), 0, nil, func(cs *core.Case, env *Env, i int) (string, bool) {
 		if i%2 == 0 {
 			return "", false
